@@ -50,3 +50,14 @@ Theorem C11_saturated : forall i t, it_overflow i = true ->
   level_of_concern i t = Some bangs /\ format_value (it_sys i) (it_value i) (it_overflow i) = (infinity, []).
 Proof. exact saturated_render. Qed.
 Print Assumptions C11_saturated.
+
+(* the statement over the REAL ratio value/reference is false within one ulp of the threshold: the binary64 quotient
+   11/10 rounds up, so with exactly that float as threshold the row is shown although 11/10 < threshold
+   (known finding threshold-within-one-ulp-of-ratio; the theorems above are about the computed quotient) *)
+Theorem C11_real_ratio_refuted :
+  exists (i : item) (t : thr),
+    it_overflow i = false /\ 0 < th_den t /\
+    level_of_concern i t <> None /\
+    it_value i * th_den t * fden (it_scale i) < th_num t * fnum (it_scale i).
+Proof. exact real_ratio_refuted. Qed.
+Print Assumptions C11_real_ratio_refuted.
